@@ -280,6 +280,9 @@ func purityExec(c Case) Event {
 		if i%5 == 4 {
 			g = g.ForceCoordinatesType(geom.DimXYZM)
 		}
+		if i < 2 && c.boolean("big") {
+			g = bigLatticeTo(r, 12, 16).bigAny()
+		}
 		vals = append(vals, withParts(g))
 		if bx, ok := g.Envelope().AsBox(); ok {
 			items = append(items, rtree.BulkItem{Box: bx, RecordID: i + 1})
@@ -412,6 +415,9 @@ func purityGen(r *rand.Rand, n int, tier string, emit func(Case)) {
 	for i := 0; i < n; i++ {
 		threads := []int{2, 3, 4, 8, 16}[i%5]
 		emit(Case{"seed": r.Int63(), "threads": threads, "calls": 60, "nvals": 5 + r.Intn(4)})
+	}
+	for i := 0; i < 2+n/8; i++ { // large sizes: two of the shared values have many members or many vertices
+		emit(Case{"seed": r.Int63(), "threads": []int{2, 4, 8}[i%3], "calls": 40, "nvals": 4 + r.Intn(3), "big": true})
 	}
 }
 
